@@ -694,8 +694,12 @@ pub fn run_session(s: &Session, keep_log: bool) -> History {
                 if matches!(op, Op::Open { .. } | Op::Change { .. }) {
                     version += 1;
                 }
-                if matches!(op, Op::Cancel { .. }) {
+                if let Op::Cancel { id } = op {
                     *h.faults.entry("cancel_request".into()).or_insert(0) += 1;
+                    let answered = h.events.iter().any(|e| matches!(e, Ev::Recv { msg, .. } if msg.get("method").is_none() && msg.get("id").and_then(|i| i.as_i64()) == Some(*id)));
+                    if !answered {
+                        *h.probes.entry("cancel_request_for_unanswered_request".into()).or_insert(0) += 1;
+                    }
                 }
                 let msg = op.to_message(version).unwrap();
                 let bytes = frame(&msg);
@@ -785,6 +789,10 @@ pub fn run_session(s: &Session, keep_log: bool) -> History {
             ("task_blocked_on_task", p.reader_blocked_on_reader),
             ("crash_while_peer_blocked", p.crash_while_peer_blocked),
             ("os_level_blocked_detected", p.os_blocked),
+            ("edit_stored_while_task_unstarted", p.edit_stored_while_task_unstarted),
+            ("edit_stored_while_task_in_query", p.edit_stored_while_task_in_query),
+            ("store_read_inside_update_window", p.store_read_inside_update_window),
+            ("task_end_after_later_task_exit", p.task_end_after_later_task_exit),
         ] {
             h.probes.insert(k.into(), v);
         }
